@@ -1034,17 +1034,37 @@ func (args LazyArgumentMap) Path(p string, source, dest syntax.Type,
 // object which does not have the next key in the path is taken to be a
 // typed map.
 func (m LazyArgumentMap) jsonPath(p string) json.Marshaler {
+	return m.typedJsonPath(p, nil, nil)
+}
+
+// typedJsonPath works like jsonPath for a struct of type t.  Unlike Path, it
+// tolerates values which are not valid for t, and t may be nil.
+func (m LazyArgumentMap) typedJsonPath(p string, t syntax.Type,
+	lookup *syntax.TypeLookup) json.Marshaler {
 	if p == "" {
 		return m
 	}
 	if i := strings.IndexRune(p, '.'); i < 0 {
 		return m[p]
 	} else {
-		return jsonPath(m[p[:i]], p[i+1:])
+		var mt syntax.Type
+		if t, ok := t.(*syntax.StructType); ok && t.Table[p[:i]] != nil {
+			mt = lookup.Get(t.Table[p[:i]].Tname)
+		}
+		return typedJsonPath(m[p[:i]], p[i+1:], mt, lookup)
 	}
 }
 
 func jsonPath(msg json.RawMessage, p string) json.Marshaler {
+	return typedJsonPath(msg, p, nil, nil)
+}
+
+// typedJsonPath works like jsonPath, except that if the type of the value is
+// known to be a typed map then it is taken to be one even if it has the next
+// key in the path, since nothing prevents a key of a map of structs from also
+// being the name of one of the members of the struct.
+func typedJsonPath(msg json.RawMessage, p string, t syntax.Type,
+	lookup *syntax.TypeLookup) json.Marshaler {
 	if p == "" {
 		return msg
 	}
@@ -1062,14 +1082,19 @@ func jsonPath(msg json.RawMessage, p string) json.Marshaler {
 		if i := strings.IndexRune(p, '.'); i >= 0 {
 			key = p[:i]
 		}
-		if _, ok := m[key]; ok {
-			return m.jsonPath(p)
+		mapType, isMap := t.(*syntax.TypedMapType)
+		if _, ok := m[key]; ok && !isMap {
+			return m.typedJsonPath(p, t, lookup)
 		}
 		// Valid json for a struct has a key for every member, so this
 		// must be a typed map.  Project through its values, like Path does.
+		var et syntax.Type
+		if isMap {
+			et = mapType.Elem
+		}
 		result := make(LazyArgumentMap, len(m))
 		for k, v := range m {
-			if b, err := json.Marshal(jsonPath(v, p)); err != nil {
+			if b, err := json.Marshal(typedJsonPath(v, p, et, lookup)); err != nil {
 				result[k] = v
 			} else {
 				result[k] = b
@@ -1081,9 +1106,13 @@ func jsonPath(msg json.RawMessage, p string) json.Marshaler {
 		if json.Unmarshal(msg, &arr) != nil {
 			return msg
 		}
+		var et syntax.Type
+		if t, ok := t.(*syntax.ArrayType); ok {
+			et = lookup.GetArray(t, -1)
+		}
 		result := make(marshallerArray, len(arr))
 		for i, v := range arr {
-			result[i] = jsonPath(v, p)
+			result[i] = typedJsonPath(v, p, et, lookup)
 		}
 		return result
 	default:
